@@ -3,6 +3,7 @@ package checks
 import (
 	"bytes"
 	"fmt"
+	"math/big"
 	"math/rand"
 	"runtime"
 	"sync"
@@ -107,7 +108,8 @@ func c12cold(c *mon.Ctx) {
 		kinds = []int{opVerify, opProve, opIPA, opCommit, opVerifyMalformed, opSharedInputs, opProofIO, opMSM, opCodec, opVerify}
 	}
 	if c.Config["coldconf"] == "0" || c.Config["coldconf"] == "" {
-		c12coldDecode(c) // the very first library calls of the process: point decodings started at the same instant
+		c12coldWeights(c) // the very first library calls of the process: several weight-table constructions started together
+		c12coldDecode(c)  // ... then point decodings started at the same instant
 	}
 	o := newOpCtx(env, c.Seed*1000+int64(c.Shard), c.Rand(fmt.Sprintf("c12cold/%d", c.Shard)))
 	if c.Config["coldconf"] == "2" {
@@ -208,6 +210,68 @@ func c12coldDecode(c *mon.Ctx) {
 			}
 			c.Count("cold_start_operations", 1)
 			c.Eval(fmt.Sprintf("coldstart|first-SetBytes-at-once|P=%d|W=%d", runtime.GOMAXPROCS(0), runtime.NumCPU()), true)
+		}
+	})
+}
+
+// c12coldWeights: the first library calls of the process are G constructions of the barycentric weight tables, released
+// by a spin barrier; each goroutine uses its own object at once (coefficients for a point outside the domain, a
+// quotient) and the results are compared with the reference.
+func c12coldWeights(c *mon.Ctx) {
+	const G = 6
+	z := big.NewInt(300)
+	want := ref.LagrangeAt(z)
+	f := make([]*big.Int, 256)
+	for i := range f {
+		f[i] = big.NewInt(int64(3*i*i + 7))
+	}
+	lf := toFr(f)
+	wq := ref.QuotientEvalForm(f, 9)
+	c.Case("coldstart/first-weight-tables-at-once", func() {
+		var wg sync.WaitGroup
+		var ready int32
+		bad := make([]string, G)
+		for g := 0; g < G; g++ {
+			g := g
+			wg.Add(1)
+			go func() {
+				defer wg.Done()
+				atomic.AddInt32(&ready, 1)
+				for atomic.LoadInt32(&ready) < G {
+				}
+				if g%2 == 1 {
+					for i := 0; i < 200*g; i++ { // stagger: arrive while the first constructions are under way
+						runtime.Gosched()
+					}
+				}
+				if p, _ := mon.Try(func() {
+					pw := ipa.NewPrecomputedWeights()
+					b := pw.ComputeBarycentricCoefficients(FrFromBig(z))
+					for i := range b {
+						if FrToBig(&b[i]).Cmp(want[i]) != 0 {
+							bad[g] = fmt.Sprintf("coefficient %d for z=300 is wrong", i)
+							return
+						}
+					}
+					q := pw.DivideOnDomain(9, lf)
+					for i := range q {
+						if FrToBig(&q[i]).Cmp(wq[i]) != 0 {
+							bad[g] = fmt.Sprintf("quotient entry %d (index 9) is wrong", i)
+							return
+						}
+					}
+				}); p != nil {
+					bad[g] = fmt.Sprint("panic: ", p)
+				}
+			}()
+		}
+		wg.Wait()
+		for g := range bad {
+			if bad[g] != "" {
+				c.Fail("cold-start-output-differs/NewPrecomputedWeights", fmt.Sprintf("weight tables built by one of the first %d concurrent NewPrecomputedWeights calls of the process and used at once: %s", G, bad[g]), nil)
+			}
+			c.Count("cold_start_operations", 1)
+			c.Eval(fmt.Sprintf("coldstart|first-NewPrecomputedWeights-at-once|P=%d|W=%d", runtime.GOMAXPROCS(0), runtime.NumCPU()), true)
 		}
 	})
 }
